@@ -41,7 +41,7 @@ def _is_ser(lib, src_enum, body, op):
     return False
 
 
-@rule("R11.1", 3, "State invariant source==Ser => error captured: the source cell is written only together with Some(error) or by copying both cells", ["C11"])
+@rule("R11.1", 3, "State invariant source==Ser => error captured: the source cell is written only together with Some(error) or by copying both cells", ["C11", "C04"])
 def r11_1(ctx):
     lib = ctx.lib
     st, srcf, src_enum, others = _state(lib)
